@@ -1,6 +1,7 @@
 // C07 -- MultiTrainDataGenerator yields every item of every source exactly once, in per-source order, and terminates
 use vstd::prelude::*;
 verus! {
+//@include specs/std_extra.rs
 //@include specs/err.rs
 // ---------------------------------------------------------------- trusted prelude
 /// one item of a source (`anyhow::Result<TrainData>` in the crate); opaque to the generator
